@@ -1360,9 +1360,10 @@ def main():
                 if t2 != text:
                     bump("roundtrip_text_differs")
                     key = "print:roundtrip-text:%s" % first_diff(text, t2)
-                    if re.sub(r"-0\b(?!\.)", "0", text) == t2:
+                    ws = lambda t: re.sub(r"\s+", " ", t)  # the formatter may break the shorter line elsewhere
+                    if ws(re.sub(r"-0\b(?!\.)", "0", text)) == ws(t2):
                         key = "print:roundtrip-text:minus-zero"
-                    elif re.sub(r"-0\b(?!\.)", "0", re.sub(r"--(\d)", r"\1", text)) == t2:
+                    elif ws(re.sub(r"-0\b(?!\.)", "0", re.sub(r"--(\d)", r"\1", text))) == ws(t2):
                         # the type checker folds a unary minus applied to a literal: --4 comes back as 4
                         key = "print:roundtrip-text:double-minus-literal"
                     emit({"t": "finding", "key": key,
